@@ -7,6 +7,7 @@
 From Coq Require Import ZArith List.
 From Pnc Require Import Proofs_Header.
 From Pnc Require Import Proofs_Layout.
+From Pnc Require Import Proofs_Exec2.
 Set Printing Width 100.
 Set Printing Depth 100000.
 
@@ -181,3 +182,140 @@ Theorem C03_begin_var_minfree_refuted_without_variables :
   ~ begin_var_minfree_full.
 Proof. exact @begin_var_minfree_refuted. Qed.
 Print Assumptions C03_begin_var_minfree_refuted_without_variables.
+
+Theorem C03_exec_enddef_writes_header :
+  forall (w : Exec.world) (id : Z) (f : Exec.filest) (ea : Header.enddef_args)
+           (w' : Exec.world),
+         Exec.f_old f = None ->
+         Exec.f_indef f = true ->
+         Exec.f_isnew f = true ->
+         Header.l_begin_rec (Exec.f_lay f) = 0%Z ->
+         hdr_wf (Exec.f_hdr f) ->
+         (0 <= Header.env_h_align (Exec.f_align f))%Z ->
+         (0 <= Header.env_v_align (Exec.f_align f))%Z ->
+         (0 <= Header.env_r_align (Exec.f_align f))%Z ->
+         (0 <= Exec.f_slot f < Base.Zlen (Exec.w_disks w))%Z ->
+         (0 <= id < Base.Zlen (Exec.w_files w))%Z ->
+         (1 <= Exec.w_nprocs w)%Z ->
+         Exec.do_enddef w id f ea = Some (w', Gen_consts.NC_NOERR) ->
+         exists (ha va ra : Z) (lay : Header.layout),
+           Header.resolve_align (Exec.f_align f) ea (Base.Zlen (Header.h_vars (Exec.f_hdr f))) true =
+           (ha, va, ra) /\
+           Header.begins (Exec.f_hdr f) (Header.e_h_minfree ea) (Header.e_v_minfree ea) ha ra None 0 =
+           Some lay /\
+           (let h1 := Header.set_numrecs (Header.set_begins (Exec.f_hdr f) (Header.l_begins lay)) 0
+              in
+            let d := Exec.get_disk w' (Exec.f_slot f) in
+            let f'' := enddef_file f lay in
+            (Base.znth (Exec.w_files w') id None = Some f'' /\
+             Exec.f_hdr f'' = h1 /\
+             Exec.f_lay f'' = lay /\
+             Exec.f_indef f'' = false /\
+             Exec.f_indep f'' = false /\
+             Exec.f_old f'' = None /\
+             Exec.f_isnew f'' = false /\
+             Exec.f_slot f'' = Exec.f_slot f /\ Exec.f_rdonly f'' = Exec.f_rdonly f) /\
+            (lay_inv (t3of (Exec.f_hdr f)) lay /\ Header.l_xsz lay = Header.hdr_len h1) /\
+            (wf_hdr h1 = true ->
+             Disk.dk_read d 0 (Header.hdr_len h1) = Header.encode_header h1 /\
+             Disk.dk_exists d = true /\
+             (Header.hdr_len h1 <= Disk.dk_size d)%Z /\
+             (forall n : Z,
+              (Header.hdr_len h1 <= n)%Z ->
+              HeaderSpec.decode (Disk.dk_read d 0 n) = Some (decoded_of h1)) /\ 
+             hdr_on_disk w' f'')).
+Proof. exact @enddef_writes_header. Qed.
+Print Assumptions C03_exec_enddef_writes_header.
+
+Theorem C03_exec_close_open_same_header :
+  forall (w : Exec.world) (id : Z) (f : Exec.filest) (mode : Z),
+         Exec.f_indef f = false ->
+         (negb (Exec.f_rdonly f) && Exec.f_indep f)%bool = false ->
+         Base.znth (Exec.w_files w) id None = Some f ->
+         wf_hdr (Exec.f_hdr f) = true ->
+         hdr_on_disk w f ->
+         (Header.hdr_len (Exec.f_hdr f) <= 65536)%Z ->
+         Header.l_xsz (Exec.f_lay f) = Header.hdr_len (Exec.f_hdr f) ->
+         (0 <= Exec.f_slot f < Base.Zlen (Exec.w_disks w))%Z ->
+         (0 <= id < Base.Zlen (Exec.w_files w))%Z ->
+         let w2 := close_world w id f in
+         let id' := Exec.first_free (Exec.w_files w2) 0 in
+         let dc := decoded_of (Exec.f_hdr f) in
+         let w3 := open_world w2 (Exec.f_slot f) mode dc in
+         let f3 := open_file w2 (Exec.f_slot f) mode dc in
+         Exec.do_close w id f = Some (w2, close_obs w f) /\
+         Exec.do_open w2 (Exec.f_slot f) mode =
+         Some (w3, Exec.same_all w2 Gen_consts.NC_NOERR (Exec.TZ id' :: nil)) /\
+         (0 <= id' <= id)%Z /\
+         Base.znth (Exec.w_files w3) id' None = Some f3 /\
+         Exec.f_hdr f3 = hdr_content (Exec.f_hdr f) /\
+         Exec.f_lay f3 =
+         HeaderSpec.layout_of_hdr (hdr_content (Exec.f_hdr f)) (Header.hdr_len (Exec.f_hdr f)) /\
+         Exec.f_lay f3 = HeaderSpec.layout_of_hdr (Exec.f_hdr f) (Header.hdr_len (Exec.f_hdr f)) /\
+         Exec.f_indef f3 = false /\
+         Exec.f_indep f3 = false /\
+         Exec.f_slot f3 = Exec.f_slot f /\
+         Exec.f_rdonly f3 = (mode =? 0)%Z /\
+         Exec.f_old f3 = None /\
+         Exec.f_isnew f3 = false /\
+         wf_hdr (Exec.f_hdr f3) = true /\
+         Header.l_xsz (Exec.f_lay f3) = Header.hdr_len (Exec.f_hdr f3) /\ hdr_on_disk w3 f3.
+Proof. exact @close_open_same_header. Qed.
+Print Assumptions C03_exec_close_open_same_header.
+
+Theorem C03_exec_enddef_close_open :
+  forall (w : Exec.world) (id : Z) (f : Exec.filest) (ea : Header.enddef_args)
+           (w' : Exec.world) (mode : Z),
+         Exec.f_old f = None ->
+         Exec.f_indef f = true ->
+         Exec.f_isnew f = true ->
+         Header.l_begin_rec (Exec.f_lay f) = 0%Z ->
+         hdr_wf (Exec.f_hdr f) ->
+         (0 <= Header.env_h_align (Exec.f_align f))%Z ->
+         (0 <= Header.env_v_align (Exec.f_align f))%Z ->
+         (0 <= Header.env_r_align (Exec.f_align f))%Z ->
+         (0 <= Exec.f_slot f < Base.Zlen (Exec.w_disks w))%Z ->
+         (0 <= id < Base.Zlen (Exec.w_files w))%Z ->
+         (1 <= Exec.w_nprocs w)%Z ->
+         Exec.do_enddef w id f ea = Some (w', Gen_consts.NC_NOERR) ->
+         exists lay : Header.layout,
+           let h1 := Header.set_numrecs (Header.set_begins (Exec.f_hdr f) (Header.l_begins lay)) 0 in
+           let f1 := enddef_file f lay in
+           Base.znth (Exec.w_files w') id None = Some f1 /\
+           Exec.f_hdr f1 = h1 /\
+           Exec.f_lay f1 = lay /\
+           lay_inv (t3of h1) lay /\
+           map Header.v_begin (Header.h_vars h1) = Header.l_begins lay /\
+           (wf_hdr h1 = true ->
+            (Header.hdr_len h1 <= 65536)%Z ->
+            let w2 := close_world w' id f1 in
+            let id' := Exec.first_free (Exec.w_files w2) 0 in
+            let w3 := open_world w2 (Exec.f_slot f) mode (decoded_of h1) in
+            let f3 := open_file w2 (Exec.f_slot f) mode (decoded_of h1) in
+            Exec.do_close w' id f1 = Some (w2, close_obs w' f1) /\
+            Exec.do_open w2 (Exec.f_slot f) mode =
+            Some (w3, Exec.same_all w2 Gen_consts.NC_NOERR (Exec.TZ id' :: nil)) /\
+            (0 <= id' <= id)%Z /\
+            Base.znth (Exec.w_files w3) id' None = Some f3 /\
+            Exec.f_hdr f3 = hdr_content h1 /\
+            Exec.f_lay f3 = HeaderSpec.layout_of_hdr h1 (Header.hdr_len h1) /\
+            Exec.f_indef f3 = false /\
+            Exec.f_slot f3 = Exec.f_slot f /\
+            hdr_on_disk w3 f3 /\
+            (Header.h_vars (Exec.f_hdr f) <> nil ->
+             (forall v : Header.var,
+              In v (rec_vars h1) -> (0 < Header.var_len (Header.h_dims h1) v)%Z) ->
+             Exec.f_lay f3 =
+             {|
+               Header.l_xsz := Header.l_xsz lay;
+               Header.l_begin_var := Header.l_begin_var lay;
+               Header.l_begin_rec :=
+                 match rec_vars h1 with
+                 | nil => last_end (Header.l_begin_var lay) (fixed_pairs h1)
+                 | _ :: _ => Header.l_begin_rec lay
+                 end;
+               Header.l_recsize := Header.l_recsize lay;
+               Header.l_begins := Header.l_begins lay
+             |})).
+Proof. exact @enddef_close_open. Qed.
+Print Assumptions C03_exec_enddef_close_open.
